@@ -76,8 +76,47 @@ func Fresh(hint string, s Sort) Term {
 	symMu.Lock()
 	symCtr[hint]++
 	n := symCtr[hint]
+	freshSeq++
+	name := fmt.Sprintf("%s!%d", hint, n)
+	symSeq[name] = freshSeq
 	symMu.Unlock()
-	return Sym(fmt.Sprintf("%s!%d", hint, n), s)
+	return Sym(name, s)
+}
+
+var (
+	freshSeq int
+	symSeq   = map[string]int{} // creation order of fresh symbols
+)
+
+// curFreshSeq returns the number of fresh symbols created so far.
+func curFreshSeq() int {
+	symMu.Lock()
+	defer symMu.Unlock()
+	return freshSeq
+}
+
+// newestSymIn returns the largest creation sequence number of the fresh symbols occurring in text.
+func newestSymIn(text string) int {
+	mx := 0
+	symMu.Lock()
+	defer symMu.Unlock()
+	i, n := 0, len(text)
+	for i < n {
+		c := text[i]
+		if c == '(' || c == ')' || c == ' ' {
+			i++
+			continue
+		}
+		j := i
+		for j < n && text[j] != '(' && text[j] != ')' && text[j] != ' ' {
+			j++
+		}
+		if s, ok := symSeq[text[i:j]]; ok && s > mx {
+			mx = s
+		}
+		i = j
+	}
+	return mx
 }
 
 // Func declares an uninterpreted function.
@@ -359,7 +398,63 @@ func Ite(c, a, b Term) Term {
 	}
 	return App("ite", a.Sort, c, a, b)
 }
-func Select(arr, i Term) Term  { return App("select", arr.Sort.Elem(), arr, i) }
+func Select(arr, i Term) Term {
+	// read-over-write with syntactically identical (or distinct literal) indices
+	for len(arr.S) < 4000 && strings.HasPrefix(arr.S, "(store ") {
+		args := topArgs(arr.S)
+		if len(args) != 4 {
+			break
+		}
+		if args[2] == i.S {
+			return Term{args[3], arr.Sort.Elem()}
+		}
+		_, l1 := litVal(Term{args[2], SInt})
+		_, l2 := litVal(i)
+		if l1 && l2 {
+			arr = Term{args[1], arr.Sort}
+			continue
+		}
+		break
+	}
+	return App("select", arr.Sort.Elem(), arr, i)
+}
+
+// topArgs splits "(f a b c)" into ["f","a","b","c"] at nesting depth one.
+func topArgs(s string) []string {
+	var out []string
+	depth := 0
+	start := -1
+	for k := 0; k < len(s); k++ {
+		c := s[k]
+		switch {
+		case c == '(':
+			if depth == 1 && start < 0 {
+				start = k
+			}
+			depth++
+		case c == ')':
+			depth--
+			if depth == 1 && start >= 0 {
+				out = append(out, s[start:k+1])
+				start = -1
+			}
+			if depth == 0 && start >= 0 {
+				out = append(out, s[start:k])
+				start = -1
+			}
+		case c == ' ':
+			if depth == 1 && start >= 0 {
+				out = append(out, s[start:k])
+				start = -1
+			}
+		default:
+			if depth == 1 && start < 0 {
+				start = k
+			}
+		}
+	}
+	return out
+}
 func Store(arr, i, v Term) Term { return App("store", arr.Sort, arr, i, v) }
 
 // Forall over integer-sorted bound variables.
